@@ -7,6 +7,8 @@ Driver of the C12 model at exact rationals.
 
 `wf gains=<p/q,...> P=<p/q> [N=<p/q>] [Es=<p/q>]`   (N / Es absent = argument left at its default 1.0)
    → `p=<p/q,...> mu=<p/q> kept=<k> margin=<p/q>`  |  `error:<PyErr>`
+`hist fill=<p/q,...> call=<P>;<N>;<Es> fill=… call=… …`   (R16: one argument buffer, refilled in place between calls)
+   → the replies of the calls in call order, joined by ` | `   (value of `PyPhysim.C12.runOpsRat [] ops`)
 
 `p`, `mu` are the value of `PyPhysim.C12.doWFRat` (= `doWF` at `Rat`).  `kept` (number of non-zero entries of
 `p`) and `margin` are bookkeeping for the harness only: `margin` is the smallest distance
@@ -33,16 +35,41 @@ def margin (P : Rat) (tests : List (Rat × Rat)) (performed : Nat) : Rat :=
     (fun m t => let d := ratAbs (t.1 - P) / ratMax (ratMax (ratAbs t.1) (ratAbs P)) (ratAbs t.2)
                 if d < m then d else m) 1
 
-def showRes (g : List Rat) (P : Rat) (oN oEs : Option Rat) : String :=
-  let N := oN.getD 1      -- bookkeeping (margin) only; the value comes from `doWFCallRat`
-  let Es := oEs.getD 1
-  match doWFCallRat g P oN oEs with
+/-- one result as a reply; `g P N Es` are used for the bookkeeping fields (margin) only -/
+def showVal (g : List Rat) (P N Es : Rat) (r : Except PyErr (List Rat × Rat)) : String :=
+  match r with
   | .error e => "error:" ++ toString e
   | .ok (p, mu) =>
     let k := (p.filter (fun x => x != 0)).length
     let performed := g.length - k + 1
     "p=" ++ showList showRat p ++ " mu=" ++ showRat mu ++ " kept=" ++ toString k
       ++ " margin=" ++ showRat (margin P (stageTests N Es (argsortAsc g)) performed)
+
+def showRes (g : List Rat) (P : Rat) (oN oEs : Option Rat) : String :=
+  -- `getD 1`: bookkeeping (margin) only; the value comes from `doWFCallRat`
+  showVal g P (oN.getD 1) (oEs.getD 1) (doWFCallRat g P oN oEs)
+
+/-- R16 history: tokens `fill=<p/q,...>` (refill the buffer in place) and `call=<P>;<N>;<Es>`,
+    in the order the caller performs them -/
+def parseOps? : List String → Option (List (Op Rat))
+  | [] => some []
+  | t :: rest =>
+    if t.startsWith "fill=" then do
+      let g ← parseRatList? (t.drop 5).toString
+      let r ← parseOps? rest
+      pure (.refill g :: r)
+    else if t.startsWith "call=" then
+      match (fields (t.drop 5).toString ";").mapM parseRat? with
+      | some [P, N, Es] => (parseOps? rest).map (fun r => .call P N Es :: r)
+      | _ => none
+    else none
+
+/-- the results are those of `runOpsRat` (the model's history function); the argument values
+    (`callArgs`) only feed the bookkeeping fields -/
+def showHist (ops : List (Op Rat)) : String :=
+  " | ".intercalate
+    (List.zipWith (fun (a : List Rat × Rat × Rat × Rat) r => showVal a.1 a.2.1 a.2.2.1 a.2.2.2 r)
+      (callArgs [] ops) (runOpsRat [] ops))
 
 /-- an optional `key=value`: absent → `some none` (argument left at its default),
     present and well formed → `some (some v)`, malformed → `none` -/
@@ -57,6 +84,10 @@ def handle : List String → String
           optRat rest "N", optRat rest "Es" with
     | some g, some P, some oN, some oEs => showRes g P oN oEs
     | _, _, _, _ => "bad-op"
+  | "hist" :: rest =>
+    match parseOps? rest with
+    | some ops => showHist ops
+    | none => "bad-op"
   | _ => "bad-op"
 
 def main : IO Unit := runDriver handle
